@@ -124,6 +124,9 @@ def main():
             if not any(b.get("theorem") == "translator(" + e.table + ")" for b in broken):
                 broken.append({"file": "harness/gen_tables.py", "theorem": "translator(" + e.table + ")", "message": str(e)})
     notes += core.collect_notes(pid)
+    rates = core.surface_rates(stats)
+    loss = core.coverage_loss_notes(pid, tier, rates)
+    notes += loss
     for name, msg in sorted(gen_tables.STALE.items()):
         notes.append(f"table {name}: the live source is no longer recognised by the translator ({msg}); generators and model ran on "
                      "the snapshot of the last successful translation while searching for a failing input")
@@ -177,7 +180,7 @@ def main():
         "generated_tables": table_info, "coqchk": coqchk,
         "evaluations": stats.evaluations, "distinct_nontrivial": len(stats.nontrivial),
         "rule": getattr(pmod, "RULE", ""), "samples": stats.samples[:8] or [{"note": "no correspondence cases were run"}],
-        "model_undefined": stats.undefined, "by_surface": stats.by_surface, "distribution": dict(sorted(stats.dist.items())),
+        "model_undefined": stats.undefined, "by_surface": stats.by_surface, "surface_rates": rates, "distribution": {k: v for k, v in sorted(stats.dist.items()) if not k.startswith("surface_")},
         "kernel_crosscheck_cases": kc[0], "kernel_crosscheck_ok": kc[1],
         "known_findings_seen": stats.known_seen, "broken_obligations": broken, "notes": notes,
         "exhaustive": bool(getattr(pmod, "EXHAUSTIVE", {}).get(tier, False)),
@@ -189,6 +192,8 @@ def main():
         print(l)
     for l in lines:
         print(l)
+    for l in loss:
+        print("NOTE " + l)
     print(f"[{pid} {tier}] obligations {discharged}/{obligations}, cases {stats.evaluations} "
           f"(nontrivial {len(stats.nontrivial)}, undefined {stats.undefined}), kernel cross-check {kc[0]} ok={kc[1]}, "
           f"violations {len(lines)}, {wall:.1f}s (build {t_build:.0f}s, correspondence {t_corr:.0f}s, kernel {t_kc:.0f}s)")
